@@ -2,7 +2,7 @@
 from ..ech import H
 
 LEVEL = "other"
-ENGINE = "E-SYM"
+ENGINE = "E-SYM+E-CH"
 TECHNIQUE = ("path-complete symbolic execution of the AST of cpu_count and its helpers into z3 (unbounded integers); "
              "one unsat query per feasible path and clause; float ceil step as a separate QF_BVFP lemma; counterexamples replayed on the real function")
 EXPLANATION = (
@@ -15,16 +15,24 @@ EXPLANATION = (
     "(unsat = holds for all integers). only_physical_cores=True additionally checks the three-way case split, the "
     "one-warning rule and a second consecutive call (same value, no warning, no new probe). The translator is "
     "validated on every run against the real function on 160 concrete configurations. math.ceil(q/p) is encoded as "
-    "the exact integer ceiling under lemma L_fp, itself discharged as a QF_BVFP query for small operands.")
+    "the exact integer ceiling under lemma L_fp, itself discharged as a QF_BVFP query for small operands. A query the "
+    "solver cannot decide over the full domain (e.g. a product of two symbolic integers introduced by a change) is "
+    "retried with the cgroup period pinned to 100000 / 1000000 / 1000 / 1: a model found that way is a genuine "
+    "counterexample (replayed), anything else leaves the unit inconclusive.")
 ASSUMPTIONS = [
     "sys.platform == 'linux' (the Windows cap is outside)",
-    "cgroup file contents are 'max' or decimal integers; what lscpu prints is abstracted to the probe's return value",
+    "cgroup file contents are 'max' or decimal integers; in the E-SYM unit what lscpu prints is abstracted to the probe's return value; the Linux probe itself is a separate E-CH contract (distinct core ids of a symbolic lscpu / cpuinfo output)",
     "lemma L_fp (float64 q/p then ceil == exact ceiling) is a solver result only for q,p < 2^8 (quick) / 2^12 (thorough); above that it is an assumption",
 ]
 
 
 def units(tier):
-    u = [("lokyverif.esym_units", "c17_cpu_count", {}),
+    from ..ech import H
+    u = [H("C17", "lokyverif.harness.c17_probe", "check_linux_probe", 300, ["loky.backend.context:_count_physical_cores_linux"],
+           "lscpu output of <=3 core-id lines (ids 0..2) with <=2 comment lines anywhere"),
+         H("C17", "lokyverif.harness.c17_probe", "check_linux_probe_fallback", 300, ["loky.backend.context:_count_physical_cores_linux"],
+           "lscpu missing -> /proc/cpuinfo with <=4 processors (core ids 0..2)"),
+         ("lokyverif.esym_units", "c17_cpu_count", {}),
          ("lokyverif.esym_units", "c17_lemma_fp", {"bits": 8, "timeout_s": 400, "solver": "z3"})]
     if tier == "thorough":
         u.append(("lokyverif.esym_units", "c17_lemma_fp", {"bits": 12, "timeout_s": 1500, "solver": "cvc5"}))
